@@ -15,6 +15,13 @@ def scorerTbl (toks : List String) : Std.HashMap (Nat × Nat) Float :=
 /-- lookup in a table built once (a missing entry is a NaN: the comparison with the real score then fails) -/
 def scorerOf (tbl : Std.HashMap (Nat × Nat) Float) (a b : Nat) : Float := (tbl.get? (a, b)).getD (0.0 / 0.0)
 
+/-- matrices separated by "//" tokens -/
+def cutMats (toks : List String) (cur : List String) (acc : List (List String)) : List (List String) :=
+  match toks with
+  | [] => (cur.reverse :: acc).reverse
+  | "//" :: r => cutMats r [] (cur.reverse :: acc)
+  | x :: r => cutMats r (x :: cur) acc
+
 def kindOf (s : String) : Kind := if s == "t" then .t else .c
 
 /-- rows separated by "/" tokens -/
@@ -49,6 +56,15 @@ def handleMSA (fs : List (List String)) : Option String :=
     let steps : List Step := (List.replicate (nat! nidx) (fun x => x)).set 0 (fun _ => c)
     let out := iterPass sp steps b
     some ("P " ++ fltOut (sp b) ++ " " ++ fltOut (sp c) ++ " | " ++ rowsStr out)
+  | [["iterimm"], [k], [gop, gw], tbl, before, cands] =>
+    -- `_iter(check='immediate')` on the observed candidates (matrices separated by "//"): start scored with the call's gap
+    -- weight, every step with the default one (0.0, gap cost -1)
+    let t := scorerTbl tbl
+    let sp := sumOfPairs (kindOf k) (scorerOf t) (flt! gop) (flt! gw)
+    let sp0 := sumOfPairs (kindOf k) (scorerOf t) (-1.0) 0.0
+    let cs : List (List (List Nat)) := (cutMats cands [] []).map splitRows
+    let steps : List Step := cs.map fun c => (fun _ => c)
+    some ("P " ++ rowsStr (iterImmediate sp sp0 steps (splitRows before)))
   | [["prog"], [g], seqs, steps] =>
     -- steps: tokens "m,n:fa:fb" with fa, fb strings of 0/1
     let st : List PStep := steps.map fun t =>
